@@ -16,7 +16,7 @@ def first_menu(env):
         return ['eof', 'hs-ok', 'hs-deflate', 'hs-partial', 'hs-404', 'hs-oversize', 'err']
     if env.phase != 'open':
         return ['eof']
-    m = ['eof', 'text', 'frag-text', 'partial-frame', 'ping', 'close-1000', 'bad-utf8', 'silence', 'err']
+    m = ['eof', 'text', 'frag-text', 'partial-frame', 'ping', 'close-1000', 'close-trunc-reason', 'bad-utf8', 'silence', 'err']
     if env.deflate:
         m += ['comp-text', 'comp-frag', 'comp-garbage']
     return m
@@ -91,6 +91,9 @@ class Env(object):
         if name == 'close-1000':
             self.phase = 'dead'
             return W.Data(SFrame(CLOSE, ref_ws.close_payload(1000, b'bye')).encode())
+        if name == 'close-trunc-reason':
+            self.phase = 'dead'
+            return W.Data(SFrame(CLOSE, ref_ws.close_payload(1000, b'caf\xc3')).encode())
         if name == 'bad-utf8':
             self.phase = 'dead'
             return W.Data(SFrame(TEXT, b'\xe2\x28\xa1').encode())
@@ -131,7 +134,7 @@ def probe_scripts():
     c1 = peer.compress(REPEAT)
     c2 = peer.compress(REPEAT)
     return [
-        ('plain', b'', [SFrame(TEXT, b'hello'), SFrame(CLOSE, ref_ws.close_payload(1000, b''))], 'one', False),
+        ('plain', b'', [SFrame(TEXT, b'hello'), SFrame(CLOSE, ref_ws.close_payload(1000, b'going away'))], 'one', False),
         ('orphan-cont', b'', [SFrame(CONT, b'tail'), SFrame(TEXT, b'x')], 'one', False),
         ('inside-codepoint', b'', [SFrame(TEXT, b'\x82\xac'), SFrame(TEXT, b'x')], 'one', False),
         ('cont-of-text', b'', [SFrame(CONT, b'\xac rest', fin=1), SFrame(TEXT, b'x')], 'frames', False),
